@@ -64,10 +64,13 @@ func Run(in, out string, reps int) error {
 		results := []abs.Oci{}
 		rests := []string{}
 		gerrs := []string{}
+		ords := []abs.Strs{}
 		rest0 := abs.Rest(abs.ToOCISpec(s.Orig))
 		for i := 0; i < reps; i++ {
 			var cdi []string
-			g := newGen(abs.ToOCISpec(s.Orig), &cdi)
+			// odd repetitions list the original's mounts children-first
+			g := newGen(abs.ToOCISpecOrd(s.Orig, i%2 == 1), &cdi)
+			ords = append(ords, abs.FromOCISpec(abs.ToOCISpecOrd(s.Orig, i%2 == 1), nil).Mord)
 			ge := ""
 			if err := g.Adjust(abs.ToAPIAdjust(s.Adj)); err != nil {
 				ge = err.Error()
@@ -77,7 +80,7 @@ func Run(in, out string, reps int) error {
 			gerrs = append(gerrs, ge)
 		}
 		ev := rec.Event{"ev": "Oci", "scn": n, "orig": s.Orig, "adj": s.Adj, "results": results,
-			"rests": rests, "rest0": rest0, "gerrs": gerrs}
+			"rests": rests, "rest0": rest0, "gerrs": gerrs, "ords": ords}
 		if err := w.WriteScenario([]rec.Event{ev}); err != nil {
 			return err
 		}
